@@ -545,14 +545,20 @@ class AutoImport:
             self.connection.commit()
 
     def _changed(self, resource):
-        if not resource.is_folder():
+        if self._is_python_file(resource):
             self.update_resource(resource)
+
+    def _is_python_file(self, resource):
+        # only modules are indexed; `notes.txt` cannot be imported
+        return not resource.is_folder() and resource.name.endswith(".py")
 
     def _moved(self, resource: Resource, newresource: Resource):
         if not resource.is_folder():
-            modname = self._resource_to_module(resource).modname
-            self._del_if_exist(modname)
-            self.update_resource(newresource)
+            if self._is_python_file(resource):
+                modname = self._resource_to_module(resource).modname
+                self._del_if_exist(modname)
+            if self._is_python_file(newresource):
+                self.update_resource(newresource)
         else:
             self._del_package_if_exist(self._resource_to_module(resource).modname)
             for file in self._python_files_in(newresource):
@@ -629,8 +635,9 @@ class AutoImport:
 
     def _removed(self, resource):
         if not resource.is_folder():
-            modname = self._resource_to_module(resource).modname
-            self._del_if_exist(modname)
+            if self._is_python_file(resource):
+                modname = self._resource_to_module(resource).modname
+                self._del_if_exist(modname)
         else:
             self._del_package_if_exist(self._resource_to_module(resource).modname)
 
